@@ -48,7 +48,7 @@ func genC14(t *rapid.T) any {
 	for r := 0; r < n; r++ {
 		c.Rows = append(c.Rows, map[string]any{
 			"a": rapid.SampledFrom([]float64{1, 2, 3, 4, 7, -1}).Draw(t, fmt.Sprintf("r%d.a", r)),
-			"s": rapid.SampledFrom([]string{"x", "y", "zz", ""}).Draw(t, fmt.Sprintf("r%d.s", r)),
+			"s": rapid.SampledFrom([]any{"x", "y", "zz", "", nil}).Draw(t, fmt.Sprintf("r%d.s", r)),
 		})
 	}
 	if rapid.IntRange(0, 2).Draw(t, "where") == 0 {
@@ -430,7 +430,7 @@ func init() {
 	Register(&Prop{
 		ID:    "C14",
 		Title: "Function execution strategies change timing, never results",
-		Rule: "rapid draws a table (1-6 rows), an optional WHERE, a select list of 1-5 calls of instrumented user functions with distinct tags under the " +
+		Rule: "rapid draws a table (1-6 rows; the string column may hold NULL, which the instrumented function passes through), an optional WHERE, a select list of 1-5 calls of instrumented user functions with distinct tags under the " +
 			"qualifiers none / ASYNC / SPINASYNC / SPIN / ONCE (at most one ONCE per function name), and a release permutation; the harness owns the " +
 			"completion order of every ASYNC/SPINASYNC/SPIN call through a gate (call i finishes only after the calls ranked before it in the drawn " +
 			"permutation: arrival order, reversed and random permutations; a pump lets a sequential engine proceed). Observed when Exec returns: " +
